@@ -124,6 +124,24 @@ open JanetModel.Gen.Sandbox in
     the other tracked variables alone) -/
 theorem gen_fieldsOK : fieldsOK graph = true := by decide +kernel
 
+open JanetModel.Gen.Sandbox in
+/-- the clones of an out-parameter function (`janet_get_addrinfo` per value stored through `is_unix`) differ in nothing but the
+    successor-less stores of the other values; every call of one is a fork over all of them, each arm assigning its value to
+    the caller's guard variable; no clone is an entry point -/
+theorem gen_outParams : outParamsOK graph outFamilies outSites = true := by decide +kernel
+
+/-- ★ what a store of another value is in a clone: a `nop` without successors ends the activation's execution there -/
+theorem stop_semantics {G : Graph} {n F md n' F' md' : Nat} (h : Ex G false n F md n' F' md')
+    (hop : (G.node n).op = .nop) (hs : (G.node n).succs = []) : n' = n ∧ F' = F ∧ md' = md := by
+  cases h <;> simp_all
+
+/-- non-vacuity: the regenerated graph has such families, sites and successor-less stores, and a family in which a store is
+    NOT cut off in a clone for another value is rejected -/
+example : Gen.Sandbox.outFamilies ≠ [] ∧ Gen.Sandbox.outSites ≠ [] ∧
+    outFamilyOK ⟨3, fun n => if n == 0 then ⟨0, .nop, []⟩ else if n == 1 then ⟨1, .nop, [2]⟩ else ⟨1, .ret, []⟩,
+                 fun f => f, []⟩ (1, [(0, 0), (1, 256)], [(0, 0)]) = false ∧
+    outFamilyOK ⟨2, fun n => ⟨n, .nop, []⟩, fun f => f, []⟩ (1, [(0, 0), (1, 256)], [(0, 0)]) = true := by decide
+
 /-- ★ what `gen_fieldsOK` buys, restated: an accepted `modeUpd` is an assignment to one tracked variable -/
 theorem upd_semantics (k o : Nat) (h : opFieldsOK (.modeUpd k o) = true) (md : Nat) :
     ∃ f ∈ fields, ((md &&& k) ||| o) &&& f = o ∧ ∀ g ∈ fields, g ≠ f → ((md &&& k) ||| o) &&& g = md &&& g :=
